@@ -524,6 +524,10 @@ func init() {
 		c.Cov.Bound["Nmax"] = fam.Nmax
 		c.Cov.Bound["undo_budget"] = fam.UndoBud
 		BFS(c, fam, 0)
+		// three undos in a row (and arbitrary further updates in between)
+		n3 := pick(c, 4, 5)
+		c.Cov.Bound["three_undos.Nmax"] = n3
+		BFS(c, &LightFamily{Nmax: n3, Prop: "C08", UndoBud: 3}, 0)
 		lightBases(c, "C08", pick(c, 3, 3), 1)
 		lightMedium(c, "C08", true)
 	}
